@@ -166,7 +166,11 @@ def oracle(ctx, rng, n):
             b = bad[0]
             ctx.violation("c06-shared-mutable:%s" % b[2][1], "assemblies %d and %d share the mutable object %s (%s) which the sweep "
                           "modifies" % (b[0], b[1], b[2][0], b[2][1]), case=base, shared=[(x[0], x[1], x[2][0]) for x in bad[:10]])
-        full = sweep_fields(r_all)
+        try:
+            full = sweep_fields(r_all)
+        except SystemExit:
+            ctx.count("sweep_stopped_by_dassh")
+            continue
         zs = r_all.z.copy()
         # (2) each assembly alone on the same axial planes
         target = rng.choice(base['assignment'])
@@ -181,7 +185,11 @@ def oracle(ctx, rng, n):
             ctx.count("alone_rejected")
             continue
         if len(r_one.z) == len(zs) and np.abs(r_one.z - zs).max() < 1e-12:
-            one = sweep_fields(r_one)
+            try:
+                one = sweep_fields(r_one)
+            except SystemExit:
+                ctx.count("sweep_stopped_by_dassh")
+                continue
             a_id = [a.id for a in r_all.assemblies if gi.position_index(a.loc[0] + 1, a.loc[1] + 1) == tid][0]
             b_id = r_one.assemblies[0].id
             dev = max(np.abs(full[a_id][0] - one[b_id][0]).max(), np.abs(full[a_id][1] - one[b_id][1]).max())
@@ -197,7 +205,7 @@ def oracle(ctx, rng, n):
         rng.shuffle(perm['assignment'])
         try:
             inp4, r_perm = gi.build_reactor(perm, d)
-            pf = sweep_fields(r_perm)
+            pf = sweep_fields(r_perm)      # (inside try / except SystemExit)
             dev = 0.0
             for aid in full:
                 dev = max(dev, np.abs(full[aid][0] - pf[aid][0]).max())
